@@ -278,6 +278,13 @@ def run_npaths(case):
 
 @st.composite
 def npaths_cases(draw, tier):
+    if draw(st.integers(0, 2)) == 0:
+        # a periodic ring of 4-7 voxels: exactly two routes, a short one over a barrier and a longer flat one, so the criteria disagree
+        c = draw(two_route_cases(tier).filter(lambda c: int(np.prod(np.shape(c['F']))) <= 7))
+        shape, F = list(np.shape(c['F'])), np.array(c['F'], float).ravel()
+        return {'lattice': c['lattice'], 'F': c['F'], 'threshold': 1e7, 'diagonal': c['diagonal'], 'method': draw(st.sampled_from(METHODS + ['minmax-energy'])), 'start': c['start'], 'stop': c['stop'],
+                'n_paths': draw(st.integers(1, 3)), 'min_diff': draw(st.sampled_from([0.0, 0.15, 0.5])), 'defaults': draw(st.booleans()),
+                'route': draw(st.sampled_from(['vol-default', 'vol-graph', 'function-array', 'function-volume']))}
     shape = [draw(st.integers(1, 4)) for _ in range(3)]
     n = int(np.prod(shape))
     F = np.full(n, 1e8)
